@@ -41,7 +41,9 @@ theorem frame_on_raise (p : List Eff) (hs : safe false p = true) (h : Heap) (A :
 /-- FRAME (with the documented exception).  A summary that additionally marks pre-existing arrays/objects
     read-only (broadcasting) changes nothing else: contents of every buffer, the buffer of every ndarray, every
     Units name, and values/mask/units/derivatives references of every object are identical; the only permitted
-    differences are WRITEABLE going True→False and `_readonly_` going False→True. -/
+    differences are WRITEABLE going True→False and `_readonly_` going False→True — on the broadcast operand and on
+    its derivatives (`markRO` = `as_readonly`, which marks the whole derivative tree), also when the run then raises
+    (the marking precedes the shape validation). -/
 theorem frame_broadcast (p : List Eff) (hs : safe true p = true) (h : Heap) (A : Args) :
     Frame true h.next h (call p h A).h :=
   run_inv A p _ _ (Inv.init true h) hs
@@ -95,7 +97,7 @@ open Summary in
 theorem broadcast_safe (keys : List Nat) : safe true (broadcast keys) = true := by
   unfold safe broadcast
   rw [safeFrom_eq, safeFromT_append]
-  have h1 : ∃ t1, safeFromT true ([.arg 1 0, .markRO 1] ++ rebuild 0 1 10 .viewOf .viewOf ++ [.markRO 0])
+  have h1 : ∃ t1, safeFromT true ([.arg 1 0, .markRO 1, .raiseIf 0] ++ rebuild 0 1 10 .viewOf .viewOf ++ [.markRO 0])
       (fun _ => .old) = some t1 ∧ t1 0 = .newObj := by
     simp [rebuild, obtain, safeFromT, tagStep, upd]
   obtain ⟨t1, e1, p1⟩ := h1
@@ -249,5 +251,21 @@ theorem copy_independent_partial (h : Heap) (a b : Nat) (ms : List Mut)
     SameObs h (runHist h a b (ms.map fun m => (false, m))) a :=
   ⟨hist_first_only a b _ (by intro p hp; simp at hp; obtain ⟨m, _, e⟩ := hp; rw [← e]) h sep wa wb,
    hist_second_only a b _ (by intro p hp; simp at hp; obtain ⟨m, _, e⟩ := hp; rw [← e]) h sep wa wb⟩
+
+/-- `copy()` establishes separation (the bridge between `copy_fresh_partial` and the independence theorems) -/
+theorem copy_establishes_sep (h : Heap) (o : Nat) (wo : WF h o) :
+    SameObs h (copyFlat h o).1 o ∧ Sep (copyFlat h o).1 o (copyFlat h o).2 ∧
+    WF (copyFlat h o).1 o ∧ WF (copyFlat h o).1 (copyFlat h o).2 :=
+  copyFlat_sep h o wo
+
+/-- COPY_INDEPENDENT, end to end (object level): take any well-formed object `o`, `c = o.copy()`, then ANY list of
+    public mutators applied to `o` leaves the observation of `c` constant, and any list applied to `c` leaves the
+    observation of `o` constant — "mutating either through the public API never shows through in the other" -/
+theorem copy_then_mutate_partial (h : Heap) (o : Nat) (wo : WF h o) (ms : List Mut) :
+    SameObs (copyFlat h o).1 (runHist (copyFlat h o).1 o (copyFlat h o).2 (ms.map fun m => (true, m)))
+      (copyFlat h o).2 ∧
+    SameObs (copyFlat h o).1 (runHist (copyFlat h o).1 o (copyFlat h o).2 (ms.map fun m => (false, m))) o := by
+  obtain ⟨_, sep, w1, w2⟩ := copyFlat_sep h o wo
+  exact copy_independent_partial _ _ _ ms sep w1 w2
 
 end PMV.Heap
